@@ -106,6 +106,20 @@ CLAIMED["C14"] = dict(
     technique="Lean 4 proof (token-level codec round trip; deletion invariants by induction over histories) + differential tie",
 )
 
+CLAIMED["C18"] = dict(
+    category="proof",
+    text="check_ok_iff: check_config accepts exactly the declarative condition CodeOk; accept_sound: accepted => Valid "
+         "(strictly increasing interfaces, >= 2, workers <= n-1, enough moves, cap inside the interfaces and above "
+         "lambda_i for every wire-fencing ensemble, engines defined and non-empty per ensemble, lambda_-1 < lambda_0) at "
+         "full strength; invalid_rejected / setup_invalid_rejected: every invalid configuration is rejected with a "
+         "configuration error (one documented guard: gromacs tables carry input_path); normalise_idempotent and "
+         "setupConfig_fixed_point; accepted_initialises. Tie: exhaustive products over small domains of every validated "
+         "field (4e4 quick / 2.8e5 thorough configurations) through the real setup_config/check_config via TOML files, every "
+         "accepted one initialised for real (REPEX_state, load_paths, first picks), restart round trips.",
+    design_ref="DESIGN.md §6 C18",
+    technique="Lean 4 proof (decision logic stated outright) + exhaustive configuration-product correspondence",
+)
+
 NOT_YET = "check not built yet at this commit (work in progress; see DESIGN.md §8 work order)"
 
 
